@@ -194,6 +194,11 @@ func (s *Session) process() {
 
 // receiveHandler.onPack
 func (s *Session) onPack(pack *RTPPack) (err error) {
+	if s.status != statusRecording {
+		// 播放端会在交错通道上发送 RTCP 接收报告（RFC 2326 10.12），推流端也可能在 RECORD 应答前就开始发送：
+		// 没有可发布的流，丢弃该包，不是关闭连接的理由
+		return nil
+	}
 	return s.stream.WritePacket(pack)
 }
 
